@@ -375,6 +375,18 @@ def sch_prune(ctx: Ctx) -> RuleResult:
                 flt = gen.ifs[0] if len(gen.ifs) == 1 else None
                 member = isinstance(flt, ast.Compare) and len(flt.ops) == 1 and isinstance(flt.ops[0], ast.In) \
                     and dotted(flt.left) == var and dotted(flt.comparators[0]) == res and dotted(a.elt if not isinstance(a, ast.DictComp) else None) == var
+                if over_g and not member and isinstance(flt, ast.BoolOp) and isinstance(flt.op, ast.And) and dotted(a.elt) == var:
+                    mem_ = [c_ for c_ in flt.values if isinstance(c_, ast.Compare) and len(c_.ops) == 1 and isinstance(c_.ops[0], ast.In)
+                            and dotted(c_.left) == var and dotted(c_.comparators[0]) == res]
+                    rest_ = [c_ for c_ in flt.values if not any(c_ is m_ for m_ in mem_)]
+                    if mem_ and rest_:
+                        r.ob(False, {"prune": norm_src(n)[:120]})
+                        r.violate(f"{m.fn.short}: an id that already has a result is pruned only when {norm_src(rest_[0])[:60]}", m.fn.loc(n),
+                                  "a node whose result is provided (a cached result, a setup result, an argument) and that fails the extra "
+                                  "test stays in the graph and is executed again: its side effects repeat, and storing its result a second "
+                                  "time fails the whole run", norm_src(n))
+                        prune_i = i
+                        continue
                 if over_g and member:
                     prune_i = i
                 elif over_g and isinstance(flt, ast.Compare) and isinstance(flt.ops[0], ast.NotIn) and dotted(flt.comparators[0]) == res:
